@@ -19,11 +19,27 @@ def files():
     inner = G.add_message(a, "Inner", [G.F("x", 1, T.TYPE_STRING), G.F("ie", 2, T.TYPE_ENUM, type_name=M + "A.Inner.IE")])
     ie = inner.enum_type.add(name="IE"); ie.value.add(name="IE_UNSPECIFIED", number=0)
     G.add_message(a, "NotReferenced", [G.F("z", 1, T.TYPE_STRING)])
+    # types reachable only as the VALUE of a map field (through the synthetic entry message): a message and an enum
+    for ename, fnum, vt, vtn in (("AttrsEntry", 5, T.TYPE_MESSAGE, M + "MapOnly"), ("GradesEntry", 6, T.TYPE_ENUM, M + "MapOnlyKind")):
+        ent = a.nested_type.add(name=ename)
+        ent.field.append(G.F("key", 1, T.TYPE_STRING))
+        ent.field.append(G.F("value", 2, vt, type_name=vtn))
+        ent.options.map_entry = True
+        a.field.append(G.F(ename[:-5].lower(), fnum, T.TYPE_MESSAGE, label=G.REPEATED, type_name=M + "A." + ename))
+    G.add_message(fd, "MapOnly", [G.F("deep", 1, T.TYPE_MESSAGE, type_name=M + "MapOnlyDeep")])
+    G.add_message(fd, "MapOnlyDeep", [])
+    mk = fd.enum_type.add(name="MapOnlyKind"); mk.value.add(name="MAP_ONLY_KIND_UNSPECIFIED", number=0)
     G.add_message(fd, "B", [G.F("cs", 1, T.TYPE_MESSAGE, label=G.REPEATED, type_name=M + "C"), G.F("res", 2, T.TYPE_STRING, resource_ref="lab.example.com/Res")])
     G.add_message(fd, "C", [G.F("a", 1, T.TYPE_MESSAGE, type_name=M + "A")])
     # the resource a kept request refers to lives in the *other* file of the package and is reachable only through that reference
     G.add_message(rs, "Res", [G.F("name", 1, T.TYPE_STRING), G.F("d", 2, T.TYPE_MESSAGE, type_name=M + "D")], resource=("lab.example.com/Res", "things/{thing}"))
     G.add_message(rs, "D", [])
+    # ... and the same resource type is declared once more as a file-level definition of the LATER file (which refers to it without importing the
+    # message's file for that): the message declaration, found first, is the resource
+    from google.api import resource_pb2
+    rdef = fd.options.Extensions[resource_pb2.resource_definition].add()
+    rdef.type = "lab.example.com/Res"
+    rdef.pattern.append("things/{thing}")
     G.add_message(fd, "Lonely", [G.F("e", 1, T.TYPE_MESSAGE, type_name=M + "E")])
     G.add_message(fd, "E", [])
     G.add_message(fd, "Meta", [])
@@ -91,7 +107,7 @@ def expected_closure(fds, methods):
                 if rr and rr in res_of:
                     todo.append(res_of[rr])
             todo += nested_of[t]
-    return seen
+    return {t for t in seen if not (t in msgs and msgs[t].options.map_entry)}
 
 
 def _names(api):
